@@ -50,14 +50,24 @@ impl OutputManager {
 
         // Test write permissions by creating a temporary file
         let test_file = self.output_dir.join(".write_test");
-        fs::write(&test_file, "test").map_err(|e| {
-            OutputError::PermissionDenied(format!(
-                "Cannot write to output directory {}: {}",
-                self.output_dir.display(),
-                e
-            ))
-        })?;
-        fs::remove_file(&test_file).ok(); // Ignore errors on cleanup
+        match fs::OpenOptions::new()
+            .write(true)
+            .create_new(true)
+            .open(&test_file)
+        {
+            Ok(_) => {
+                fs::remove_file(&test_file).ok(); // Ignore errors on cleanup
+            }
+            // somebody else's file of that name: leave it alone
+            Err(e) if e.kind() == std::io::ErrorKind::AlreadyExists => {}
+            Err(e) => {
+                return Err(OutputError::PermissionDenied(format!(
+                    "Cannot write to output directory {}: {}",
+                    self.output_dir.display(),
+                    e
+                )))
+            }
+        }
 
         Ok(())
     }
